@@ -21,7 +21,7 @@ RULE = ("cases from rng(seed, 13, 0, i): graphs of SE(2)/SE(3) poses and R^2/R^3
         "incl. 1e-300..1e300, subnormals, negative / 2^62 / 2^64 ids, w<0 quaternions, dense information; 1..5 export/import cycles (sometimes with in-place edits of the loaded graph between cycles; sometimes an edge listed twice; the first written file is also read with registered edge types that recognise built-in lines (EdgeOdometry itself / a subclass, listed once or twice): still one edge per line). pinned: files of exactly 999/1000/1001/1024/2000/4096/8192 lines. every 6th case checks that inexpressible "
         "content (R^n odometry, R^n->R^n landmark edges, SE(2) landmark edge with a non-identity - also tiny - offset, SE(3) landmark edge whose offset id is None (also while a different offset is registered under id 0) / unregistered) is refused with an error at export or import instead of silently becoming a different graph. distinct = spec fingerprint; non-trivial = >= 2 edges and "
         ">= 1 non-integer value.")
-REQ = ["class:reimport_with_registered_types_that_parse_builtin_lines", "class:file_of_exactly_1000_lines", "refusal_variant:lm_se3_offset_id_none_param0", "eval:roundtrip-structure", "eval:roundtrip-vertex-poses", "eval:roundtrip-edge-measurements", "eval:roundtrip-information", "eval:roundtrip-offsets", "eval:roundtrip-chi2",
+REQ = ["class:reimport_after_editing_an_earlier_import", "class:reimport_with_registered_types_that_parse_builtin_lines", "class:file_of_exactly_1000_lines", "refusal_variant:lm_se3_offset_id_none_param0", "eval:roundtrip-structure", "eval:roundtrip-vertex-poses", "eval:roundtrip-edge-measurements", "eval:roundtrip-information", "eval:roundtrip-offsets", "eval:roundtrip-chi2",
        "eval:file-tokens-exact", "eval:element-level-roundtrip", "eval:inexpressible-content-refused", "class:family:2d", "class:family:3d", "class:family:both", "class:extreme_values", "class:meas_quat_wneg",
        "class:offset_rotated", "class:cycles>1", "class:huge_ids", "class:identical_parallel_edges", "class:edited_in_place_between_cycles"]
 PLAN = {
@@ -340,6 +340,26 @@ def roundtrip_case(ctx, i, rng):
                     okc, why = False, {"exception": type(ex).__name__, "message": str(ex)[:200]}
                 ctx.check("roundtrip-structure", okc, dict(feats, registered_types=True), why, case)
                 ctx.count("class:reimport_with_registered_types_that_parse_builtin_lines")
+            if c == 1 and not ext and rng.random() < 0.5:
+                # an earlier import of the same file whose objects were then written to by their owner (offsets, measurements, information, poses):
+                # a later import still returns what the file says
+                try:
+                    gx = M.Graph.from_g2o(path)
+                    for e in gx._edges:
+                        e.information *= 3.0
+                        if isinstance(getattr(e, "offset", None), np.ndarray):
+                            e.offset[:2] = [0.2, -0.1]
+                        if isinstance(e.estimate, np.ndarray):
+                            e.estimate[0] = float(e.estimate[0]) + 1.0
+                    for v in gx._vertices:
+                        v.pose[0] = float(v.pose[0]) + 1.0
+                    g_again = M.Graph.from_g2o(path)
+                except Exception as ex:
+                    ctx.check("roundtrip-structure", False, dict(feats, exception=type(ex).__name__, stage="second import after the first import's objects were edited"), {"message": str(ex)[:300]}, case)
+                    return
+                ctx.count("class:reimport_after_editing_an_earlier_import")
+                if not compare_graphs(ctx, g0, g_again, c, dict(feats, cycle=c, after_editing_an_earlier_import=True), case):
+                    return
             if c == 1 and edit_between and not ext:
                 # history: the loaded graph is edited in place (offset through the edge that uses it, information scaled in place, a vertex moved) and becomes
                 # the reference for the remaining cycles; the next export must write the edited graph
